@@ -81,7 +81,8 @@ Inductive sop :=
   | ODelMps (mpk : Z)
   | OAddPeriod (ppk mpk pid spk : Z)
   | ODelPeriod (ppk : Z)
-  | OAddAset (apk ppk : Z).
+  | OAddAset (apk ppk : Z)
+  | ORename (spk dir : Z).                         (* edit stream: the directory changes only while the stream has no media *)
 
 Definition fresh (x : Z) (l : list Z) : bool := negb (zmem x l).
 
@@ -130,6 +131,9 @@ Definition sstep (s : store) (o : sop) : store :=
         {| streams := streams s; files := files s; blobs := blobs s; keys := keys s; links := links s; mpss := mpss s;
            periods := periods s; asets := (apk, ppk) :: asets s |}
       else s
+  | ORename spk dir =>
+      if existsb (fun f => f_stream f =? spk) (files s) || zmem dir (map snd (streams s)) then s
+      else set_streams s (map (fun x => if fst x =? spk then (spk, dir) else x) (streams s))
   end.
 
 Definition srun (ops : list sop) : store := fold_left sstep ops sempty.
